@@ -12,7 +12,7 @@ ID = "C16"
 READY = True
 LEVEL = "exploration"
 WORKERS = {"quick": 8, "thorough": 16}
-BUDGET = {"quick": 100, "thorough": 600}
+BUDGET = {"quick": 140, "thorough": 720}
 MIN_NONTRIVIAL = {"quick": 150, "thorough": 3000}
 REQUIRED_HOOKS = ["first-use-schedule", "double-preemption-schedule", "schedule", "scheduling-point", "switch-inside-library-code", "stress-evaluation", "single-preemption-schedule"]
 RULE = (
@@ -467,7 +467,8 @@ def run(ctx):
     # Slots: every program of the pool is thread A's program once with two compiled and once with two interpreted threads (the
     # shared state of one runner class is reached only when both threads use it); slots beyond two passes over the pool mix runners.
     npairs = 6 if not ctx.thorough else 24
-    budget_each = t_sched * 0.46 / max(1, npairs)
+    budget_each = t_sched * 0.38 / max(1, npairs)
+    budget_double = t_sched * 0.22 / max(1, npairs)
     for pi in range(npairs):
         g = ctx.worker * npairs + pi
         idx = (g + ctx.seed) % len(PROGRAMS)
@@ -512,7 +513,9 @@ def run(ctx):
                 other = (not in_eval) or nsched % 3 == 0
                 pbx, prex = (po, pre_o) if other else (pb, pre_b)
                 pre = (pre_a if in_eval else None, prex if (in_eval and nsched % 2 == 0) else None)
-                ex.fast_schedule("single-preemption", [(ra, pa), (rb, pbx)], site, occ, f"{ra}{rb} {site[0]}:{site[1]} occurrence {occ} ({group} site)", limits=lim, prebuilt=pre)
+                # while A constructs, B is of the OTHER runner class every other time (state shared between the classes: the parser)
+                rbx = rb if (in_eval or nsched % 2) else ("I" if rb == "C" else "C")
+                ex.fast_schedule("single-preemption", [(ra, pa), (rbx, pbx)], site, occ, f"{ra}{rbx} {site[0]}:{site[1]} occurrence {occ} ({group} site)", limits=lim, prebuilt=pre if rbx == rb else (pre[0], None))
                 acc.hook("single-preemption-schedule")
                 done[group] += 1
         rare, common = ev_rare + cons, ev_common
@@ -524,14 +527,17 @@ def run(ctx):
             cobj = ex.site_code.get(site)
             if cobj is not None and site[0] != "<string>":
                 by_code.setdefault(id(cobj), []).append(site)
+        # functions executed once per evaluation (entry and exit code, where "save, change, restore" sequences on process-wide
+        # settings live) first, then the others; within a function every ordered pair of its lines
+        ranked = sorted((max(ex.eval_count[x] for x in sites), rnd.random(), sites) for sites in by_code.values() if 1 <= len(sites) <= 14)
         pairs2 = []
-        for sites in by_code.values():
-            if 2 <= len(sites) <= 14:
-                pairs2 += [(s1, s2) for s1 in sites for s2 in sites]
-        rnd.shuffle(pairs2)
+        for _, _, sites in ranked:
+            block = [(s1, s2) for s1 in sites for s2 in sites]
+            rnd.shuffle(block)
+            pairs2 += block
         t2 = time.monotonic()
         for s1, s2 in pairs2:
-            if time.monotonic() - t2 > budget_each * 0.35 or ctx.expired() or pre_a is None:
+            if time.monotonic() - t2 > budget_double or ctx.expired() or pre_a is None:
                 break
             ex.double_schedule([(ra, pa), (rb, pa)], s1, s2, f"{ra}{rb} {s1[0]}:{s1[1]} / {s2[0]}:{s2[1]}", lim, (pre_a, pre_b if pb is pa else None))
         acc.extra["single_preemption_points_total"] = acc.extra.get("single_preemption_points_total", 0) + n_a
@@ -547,7 +553,7 @@ def run(ctx):
     # (b) PCT-style and (c) random walks
     t1 = time.monotonic()
     j = 0
-    while time.monotonic() - t1 < t_sched * 0.1 and not ctx.expired():
+    while time.monotonic() - t1 < t_sched * 0.05 and not ctx.expired():
         j += 1
         nth = rnd.choice([2, 2, 3, 4])
         mix = rnd.choice(["CCCC", "IIII", "CICI", "ICCI"])[:nth]
